@@ -149,6 +149,54 @@ def g_numeric(r):
     return "def f(a: int = %s, b: float = %s) -> float:\n    return a * b\n\n\ndef main() -> None:\n    println(f(%s, %s))\n" % (N(), N(), N(), N())
 
 
+MB = ["é", "€", "😀", "𝄞", "ü", "\u200b", "中"]
+BAD_TYPES = ["Result[int]", "Result", "Result[int, str, bool]", "Option", "Option[int, str]", "List", "List[int, str]", "Dict[str]", "Dict", "Set",
+             "Tuple", "Tuple[]", "Result[]", "Option[]", "int[str]", "str[int]", "Result[Result]", "Option[Option[]]", "Result[int, str]", "Option[int]",
+             "List[Result[int]]", "Dict[str, Option]", "(int)", "()", "(int, )", "Result[(), ()]", "FrozenList", "FrozenDict[str]", "Self", "None"]
+CTORS = ["Ok(1)", 'Err("e")', "Some(1)", "None", "[1]", "{}", "(1, 2)", "1", "Ok()", "Err()", "Some()", "Ok(1, 2)", "Some(None)", "Ok(Ok(1))"]
+PATS = ["Ok(v)", "Err(e)", "Some(v)", "None", "Ok()", "Err()", "Ok(a, b)", "Err(a, b)", "Some(a, b)", "Ok(Ok(v))", "Some(Some(v))", "_", "v", "Ok(_)", "Err(_)",
+        "(a, b)", "[a, b]", "1", '"s"', "Ok", "Err", "Some"]
+
+
+def g_escape(r):
+    """String-like literals whose escape sequences are followed by multi-byte characters, braces, quotes or the end of the literal:
+    every diagnostic the lexer locates inside them must still fall on character boundaries."""
+    pre = r.choice(["", "", "b", "f", "r", "rb", "br", "fr", "B", "F"])
+    qt = r.choice(['"', '"', "'", '"""'])
+    body = ""
+    for _ in range(r.randint(1, 4)):
+        k = r.random()
+        if k < 0.6:
+            body += "\\" + r.choice(list("xxxuuUN0123456789abfnrtv{}'\\\"") + ["u{", "x{", "N{"])
+            body += "".join(r.choice(MB + list("0123456789abcdefABCDEFgz{}") + MB) for _ in range(r.randint(0, 4)))
+        elif k < 0.8:
+            body += r.choice(MB) * r.randint(1, 3)
+        else:
+            body += r.choice(["{", "}", "{{", "}}", "{x}", "{x!r}", "{x:>5}", "{" + r.choice(MB) + "}", " ", "a"])
+    close = qt if r.random() < 0.85 else ""
+    lit = pre + qt + body + close
+    form = r.choice(["x = %s\n", "def f() -> bytes:\n    return %s\n", "println(%s)\n", "const C: str = %s\n", "match s:\n    %s => 1\n", "x = [%s, 1]\n"])
+    return form % lit
+
+
+def g_types(r):
+    """Generic types applied to the wrong number of arguments (or none), met by constructor patterns, `?`, iteration and indexing."""
+    T, c = r.choice(BAD_TYPES), r.choice(CTORS)
+    arms = r.sample(PATS, r.randint(1, 3))
+    style = r.random() < 0.5
+    m = "".join(("        case %s:\n            println(1)\n" if style else "        %s => println(1)\n") % a for a in arms)
+    k = r.random()
+    if k < 0.45:
+        return "def f() -> %s:\n    return %s\n\n\ndef main() -> None:\n    match f():\n%s" % (T, c, m)
+    if k < 0.6:
+        return "def main() -> None:\n    x: %s = %s\n    match x:\n%s" % (T, c, m)
+    if k < 0.75:
+        return "def f() -> %s:\n    return %s\n\n\ndef g() -> %s:\n    v = f()?\n    return v\n" % (T, c, r.choice(BAD_TYPES))
+    if k < 0.9:
+        return "def f(p: %s) -> None:\n    for a in p:\n        println(a)\n    println(p[0])\n    println(p.unwrap())\n    y = [q for q in p]\n" % T
+    return "model M:\n    a: %s\n    b: %s = %s\n\n\ndef main() -> None:\n    m = M(a=%s)\n    match m.a:\n%s" % (T, r.choice(BAD_TYPES), c, r.choice(CTORS), m)
+
+
 def verdict_front(r):
     if "crash" in r:
         return Verdict("violated", "front end aborted the process (exit/signal %s)" % r["crash"])
@@ -199,7 +247,7 @@ def main(tier, seed, replay=None):
     run.rule = ("one evaluation = one UTF-8 input pushed through lex, parse, check, format_source and IrCodegen::try_generate under "
                 "catch_unwind on an 8 MiB stack, with every returned diagnostic checked (non-empty list, start<=end<=len, char boundaries) and "
                 "rendered by format_error, render_miette and compile_error_to_diagnostic; generators: random characters, token soup, "
-                "single accidents applied to valid programs, nesting to depth 150, boundary numeric literals in const/expression/pattern/index/range positions; distinct = (generator, stage outcome vector, diagnostic "
+                "single accidents applied to valid programs, nesting to depth 150, boundary numeric literals in const/expression/pattern/index/range positions, escape sequences next to multi-byte characters in every string-like literal, generic types of the wrong arity met by patterns/`?`/iteration; distinct = (generator, stage outcome vector, diagnostic "
                 "count bucket, input hash); non-trivial = input >= 8 bytes")
     run.assumptions = ["nesting depth is capped at 150 (the property's 'fixed generous depth'); stages run on an 8 MiB stack like the CLI main thread",
                        "a per-input watchdog firing is inconclusive, not a violation"]
@@ -223,6 +271,10 @@ def main(tier, seed, replay=None):
         r = random.Random(rng.getrandbits(48))
         if k < 0.04:
             inputs.append(("numeric", g_numeric(r)))
+        elif k < 0.07:
+            inputs.append(("escape", g_escape(r)))
+        elif k < 0.1:
+            inputs.append(("types", g_types(r)))
         elif k < 0.12:
             inputs.append(("random", g_random(r)))
         elif k < 0.27:
